@@ -686,6 +686,8 @@ def run_mgr(ctx, replay):
                 fail = rng.random() < sp["pfail"]
                 nfail += fail
                 s = dict(s, metric_val=float("nan") if fail else gen_metric(rng, sp["style"]))
+                if fail and dehb and rng.random() < 0.6:
+                    s["trial_id"] = None        # the way dehb.py reports a failed job (_report_as_failed)
                 try:
                     ret = mgr.on_result((bid, SlotInRung(**s)))
                 except Exception as e:
@@ -696,11 +698,13 @@ def run_mgr(ctx, replay):
                 if dehb and ret is not None and s["rung_index"] + 1 < len(rss[bid % len(rss)]):
                     # DEHB asks the manager for the best entries of the rung just completed
                     try:
-                        top = [int(mgr.top_of_previous_rung(bid, p)) for p in range(rss[bid % len(rss)][s["rung_index"] + 1][0])]
+                        top = [mgr.top_of_previous_rung(bid, p) for p in range(rss[bid % len(rss)][s["rung_index"] + 1][0])]
+                        top = [None if t is None else int(t) for t in top]
                     except Exception as e:
                         blocked = "top_of_previous_rung raised %s: %s" % (type(e).__name__, e)
                         break
                     chk.check_top_list(bid, s["rung_index"], top)
+                    ctx.h("dehb_top_list", "contains_failed_job_without_trial" if None in top else "all_trials")
                 done_jobs.append((bid, s))
                 evs.append(RET + " %s %s true %s" % (natlit(bid), sirlit(s), optlit(ret, tidlist)))
                 if dehb and ret is not None and s["rung_index"] + 1 < len(rss[bid % len(rss)]):
